@@ -1,0 +1,8 @@
+//go:build verif
+
+package app
+
+import "github.com/glebziz/fs_db/internal/di"
+
+// VerifContainer returns the dependency container of the server (verification builds only).
+func (a *app) VerifContainer() *di.Container { return a.container }
